@@ -231,6 +231,8 @@ def monC09 (h : Hist) : Option String :=
           if isQClass f then Spec.qPlainCanon (Spec.combined rj.req.header f) ≠ Spec.qPlainCanon (Spec.combined ri.req.header f)
           else selCanon f (Spec.combined rj.req.header f) ≠ selCanon f (Spec.combined ri.req.header f)) then none else
       if Spec.strictValidate Spec.rfc parse ri.req.header s x.res.t0 then none else
+      -- max-age given twice with different values: "considered stale" conforms as well as "first occurrence"
+      if Spec.conflictingDuplicate s.header (str% "max-age") then none else
       if !(Spec.currentAge parse s x.res.t0 + nsPerSec < Spec.freshnessLifetime Spec.rfc parse s) then none else
       if x.fgCalls.isEmpty && x.fromStore && x.token == tokenJ then none
       else some s!"exchange {ri.n}: a fresh matching response (stored by exchange {rj.n}, age {Spec.currentAge parse s x.res.t0} ns, lifetime {Spec.freshnessLifetime Spec.rfc parse s} ns) was not served from the store: {exTagS x}"
